@@ -23,6 +23,10 @@ class SourceError(Exception):
     pass
 
 
+class SourceBaseError(BaseException):
+    """A failure that is not an Exception subclass (the bridges must not narrow what they forward)."""
+
+
 def _w(rng, pairs):
     tot = sum(w for _, w in pairs)
     x = rng.random() * tot
@@ -55,6 +59,8 @@ def gen_program(rng, profile, index=None):
     if src not in ('list', 'range'):
         if rng.random() < 0.5:
             prog['fail_at'] = rng.randrange(n + 1)
+            if rng.random() < 0.25:
+                prog['fail_kind'] = 'base'
         # dyadic values plus multiples of 0.05 s (the polling constant this code base uses), so that a producer
         # step can end exactly when a consumer-side poll expires
         prog['delays'] = [_w(rng, [(0.0, 6), (Q, 2), (8 * Q, 2), (24 * Q, 1), (0.05, 2), (0.1, 1), (0.25, 1)]) for _ in range(n + 1)]
@@ -123,7 +129,7 @@ class IterWorld:
             sim_sleep(d)
             self.blocked_in_source = False
         if p['fail_at'] == j:
-            self.exc = SourceError(j)
+            self.exc = (SourceBaseError if p.get('fail_kind') == 'base' else SourceError)(j)
             raise self.exc
         if j >= len(self.values):
             raise StopIteration
@@ -150,7 +156,7 @@ class IterWorld:
             if d:
                 await asyncio.sleep(d)
             if p['fail_at'] == j:
-                self.exc = SourceError(j)
+                self.exc = (SourceBaseError if p.get('fail_kind') == 'base' else SourceError)(j)
                 raise self.exc
             if j < len(self.values):
                 self.produced += 1
